@@ -155,7 +155,11 @@ def imread_from_npz(path: Union[Path, list[Path]]) -> darsia.Image:
     npzdata = np.load(path, allow_pickle=True)
     array = npzdata["array"]
     metadata = npzdata["metadata"].item()
-    image = darsia.Image(array, **metadata)
+    if "color_space" in metadata:
+        # Only optical images carry a color space
+        image = darsia.OpticalImage(array, **metadata)
+    else:
+        image = darsia.Image(array, **metadata)
     return image
 
 
